@@ -213,6 +213,9 @@ def replay(case):
 
         return carriers.replay(case, "c05")
     data = bytes.fromhex(case["hex"])
+    if case.get("ext_registry"):
+        with _progdiff.ext_registry():
+            return judge(data)[0]
     if case.get("plain"):
         return replay_plain(data)
     if case.get("value_only"):
